@@ -269,6 +269,7 @@ func TestC16(t *testing.T) {
 	}
 	ho := faultHistOpt()
 	ho.Rotations = 2
+	ho.Scale = false
 	rapidCheck(t, func(rt *rapid.T) {
 		if rapid.IntRange(0, 29).Draw(rt, "part_e2e") == 0 {
 			// end to end: the announced algorithm is the one of the LATEST format description of THIS attempt,
